@@ -1,5 +1,6 @@
 import DarkluaModel.C09.Main
 import DarkluaModel.C09.Globals
+import DarkluaModel.C09.SelfWitness
 /-!
 # C09 — theorems: renaming variables never changes which binding a name refers to
 
@@ -207,6 +208,52 @@ theorem genOk_of_selfNotGenerated {incl : Bool} {out : List Event}
   rcases this with h | h
   · simp [hi] at h
   · exact h
+
+/-- The property at full strength: no hypothesis about `self`. -/
+def rename_preserves_binding_full : Prop :=
+  ∀ (cfg : Config) (es : List Event), HGlobals cfg es = true →
+    resolve (renameRule cfg es) = resolve es
+
+/-- state of the processor inside the method of `selfWitness`, before the locals -/
+def sMethod : State :=
+  (step (step (State.init [] false) .push).2 .insertSelf).2
+
+theorem sMethod_simple : Simple sMethod :=
+  ⟨rfl, _, _, rfl, by decide⟩
+
+/-- **The full statement is false of the code** (genuine defect, `known_findings.json` F-C09-self):
+in `function t:m() local x … local x return self end` with enough locals (about 4.73 million on
+the real code) one local is renamed `self` and captures the `self` that follows.  Witness
+`selfWitness (N+1)`, `N` obtained from the first-accepted-string property of the retry loop. -/
+theorem rename_preserves_binding_full_false : ¬ rename_preserves_binding_full := by
+  intro hfull
+  have hstart : permVal permStart ≤ permVal selfDigits := by decide
+  obtain ⟨N, gs, hN⟩ := self_generated ([] ++ keywords) filter_self_keywords
+    (permVal selfDigits + 1) permStart hstart (by omega)
+  have hH : HGlobals witnessCfg (selfWitness (N + 1)) = true := rfl
+  have h := hfull witnessCfg (selfWitness (N + 1)) hH
+  rw [resolve_selfWitness] at h
+  have hrun : renameRule witnessCfg (selfWitness (N + 1))
+      = .push :: .insertSelf :: ((gs ++ [selfName]).map .insertLocal ++ [.use selfName]) := by
+    unfold renameRule
+    rw [avoidList_selfWitness]
+    show run (State.init [] false) (selfWitness (N + 1)) = _
+    unfold selfWitness
+    simp only [run]
+    have h1 : (step (State.init [] false) .push).1 = .push := rfl
+    have h2 : (step (step (State.init [] false) .push).2 .insertSelf).1 = .insertSelf := rfl
+    rw [h1, h2]
+    have := run_locals (N + 1) sMethod sMethod_simple
+    have ha : sMethod.avoid = [] ++ keywords := rfl
+    have hp : sMethod.perm = permStart := rfl
+    rw [ha, hp, hN] at this
+    exact congrArg (fun l => Event.push :: Event.insertSelf :: l) this
+  rw [hrun] at h
+  unfold resolve at h
+  simp only [resolveFrom, useName, rMethod_eq] at h
+  rw [resolveFrom_locals, declL_append] at h
+  simp only [resolveFrom, useName, declL, lookup_declare_same, declL_next] at h
+  simp [rMethod] at h
 
 /-- **Renaming preserves the binding graph.**  For every event stream and configuration inside
 `HGlobals` and `Hself`: each use refers, in the output, to the same declaration (or is global,
